@@ -372,6 +372,10 @@ def procSetattr (s : St) (c : Ctx) (args : Bytes) : St × Outcome :=
   | .error st => (s1, res st (.wcc wcc0))
   | .ok s2 => setattrApply s2 c h sa pre
 
+/-- LOOKUP's reply carries the directory's post-op attributes: a fresh GetAttr, or the handle's snapshot if that fails -/
+def lookupDirAttr (s : St) (now : Nat) (n : Node) (k : Attrs → Outcome) : St × Outcome :=
+  ((getAttrOr s now n n.attrs).1, k (getAttrOr s now n n.attrs).2)
+
 def procLookup (s : St) (c : Ctx) (args : Bytes) : St × Outcome :=
   match decFh' s args with
   | none => (s, res 4 (.postOp none))
@@ -383,12 +387,13 @@ def procLookup (s : St) (c : Ctx) (args : Bytes) : St × Outcome :=
   match nodeOf s h with
   | none => (s, res 70 (.postOp none))
   | some n =>
-  if n.attrs.kind ≠ .dir then (s, res 20 (.postOp (some (toFattr n.attrs)))) else
+  -- the directory's attributes in the reply come from GetAttr (falling back to the handle's snapshot)
+  if n.attrs.kind ≠ .dir then (lookupDirAttr s c.now n (fun da => res 20 (.postOp (some (toFattr da))))) else
   match lookupPath s c.now (joinName n.path name) with
-  | (s1, .error st) => (s1, res (mapErrno st) (.postOp (some (toFattr n.attrs))))
+  | (s1, .error st) => lookupDirAttr s1 c.now n (fun da => res (mapErrno st) (.postOp (some (toFattr da))))
   | (s1, .ok ln) =>
     let (s2, fh) := allocate s1 ln
-    (s2, res 0 (.lookupOk fh (some (toFattr ln.attrs)) (some (toFattr n.attrs))))
+    lookupDirAttr s2 c.now n (fun da => res 0 (.lookupOk fh (some (toFattr ln.attrs)) (some (toFattr da))))
 
 def procAccess (s : St) (c : Ctx) (args : Bytes) : St × Outcome :=
   match decFh' s args with
